@@ -144,6 +144,7 @@ structure Trace (wb : Workbook) (doc : Node) (f : Fields) (lists : List (Str × 
   hpar : dparse drows = .ok ditems
   hbinds : bindsOkL (elsOf f.name (dWithMeta f.name rows ditems)) [(f.name, .group)] (dWithMeta f.name rows ditems) = true
   hctl : ctlOkL ditems = true
+  htexts : textsErrL (elsOf f.name (dWithMeta f.name rows ditems)) [f.name] ditems = none
   hdoc : doc = assemble f none (instNodes (defaultsOfL [f.name] ditems) [f.name] (ntKids o.inst))
     ((Choices.staticInsts [] (othersApplied (activeRows rows) lists)).map Choices.instNode ++
       bindNodesL (elsOf f.name (dWithMeta f.name rows ditems)) [(f.name, .group)] (dWithMeta f.name rows ditems))
@@ -199,10 +200,11 @@ theorem convertDoc_trace (wb : Workbook) (doc : Node) (h : convertDoc wb = .ok d
                               · rename_i hc
                                 split at h
                                 · simp at h
-                                · split at h
+                                · rename_i htx
+                                  split at h
                                   · rename_i hv
                                     simp only [Except.ok.injEq] at h
-                                    refine ⟨f, _, rows, drows, o, ditems, ⟨hf, ⟨key, hkey, hrows⟩, hdrows, ho, hdi, ?_, ?_, h.symm, ?_⟩⟩
+                                    refine ⟨f, _, rows, drows, o, ditems, ⟨hf, ⟨key, hkey, hrows⟩, hdrows, ho, hdi, ?_, ?_, htx, h.symm, ?_⟩⟩
                                     · simpa using hb
                                     · simpa using hc
                                     · rw [← h]; exact hv
@@ -1343,6 +1345,109 @@ theorem isOkWith_eq {r : Except Convert.Err Str} {s : Str} (h : isOkWith r s = t
   split at h
   · rw [beq_iff_eq] at h; rw [h]
   · simp at h
+
+/-! ## 6c. C03 for dynamic defaults and repeat counts (the other cells that go through `insert_xpaths`) -/
+
+theorem orErr_none {a b : Option Convert.Err} (h : orErr a b = none) : a = none ∧ b = none := by
+  cases a with
+  | none => exact ⟨rfl, h⟩
+  | some e => simp [orErr] at h
+
+theorem exprErr_none {els : List Refs.Chain} {ctx : Refs.Chain} {v : Str} (h : exprErr els ctx v = none) :
+    ∃ out, Refs.insertXpaths els (some ctx) {} v = some out := by
+  unfold exprErr at h
+  split at h
+  · simp at h
+  · split at h
+    · simp at h
+    · rename_i hn
+      cases hi : Refs.insertXpaths els (some ctx) {} v with
+      | none => simp [hi] at hn
+      | some out => exact ⟨out, rfl⟩
+
+mutual
+/-- (path of the element, expression) of every dynamic default and every repeat-count attribute of the walk -/
+def exprCells (pre : List Str) : DItem → List (List Str × Str)
+  | .q d p =>
+    (match get p.cells "default" with
+     | some dv => if isDynDefault p.cells then [(pre ++ [d.name], dv)] else []
+     | none => [])
+  | .sec ct n _ p ks =>
+    (if ct = .rep then p.attrs.map fun kv => (pre ++ [n], kv.2) else []) ++ exprCellsL (pre ++ [n]) ks
+def exprCellsL (pre : List Str) : List DItem → List (List Str × Str)
+  | [] => []
+  | k :: ks => exprCells pre k ++ exprCellsL pre ks
+end
+
+theorem attrsErr_none (els : List Refs.Chain) (ctx : Refs.Chain) : ∀ (a : Controls.Dict), attrsErr els ctx a = none →
+    ∀ kv ∈ a, ∃ out, Refs.insertXpaths els (some ctx) {} kv.2 = some out
+  | [], _ => by simp
+  | (k, v) :: rest, h => by
+    obtain ⟨h1, h2⟩ := orErr_none (by simpa [attrsErr] using h)
+    intro kv hkv
+    simp only [List.mem_cons] at hkv
+    rcases hkv with rfl | hkv
+    · exact exprErr_none h1
+    · exact attrsErr_none els ctx rest h2 kv hkv
+
+mutual
+theorem textsErr_exprs (els : List Refs.Chain) : ∀ (pre : List Str) (d : DItem), textsErr els pre d = none →
+    ∀ pe ∈ exprCells pre d, ∃ out, Refs.insertXpaths els (some (ctxOf els pe.1)) {} pe.2 = some out
+  | pre, .q d p, h => by
+    obtain ⟨-, h2⟩ := orErr_none (by simpa [textsErr] using h)
+    intro pe hpe
+    simp only [exprCells] at hpe
+    split at hpe
+    · rename_i dv hdv
+      rw [hdv] at h2
+      simp only [] at h2
+      split at hpe
+      · rename_i hdyn
+        simp only [hdyn, if_true] at h2
+        simp only [List.mem_singleton] at hpe; subst hpe
+        exact exprErr_none h2
+      · simp at hpe
+    · simp at hpe
+  | pre, .sec ct n b p ks, h => by
+    obtain ⟨-, h2⟩ := orErr_none (by simpa [textsErr] using h)
+    obtain ⟨h3, h4⟩ := orErr_none h2
+    intro pe hpe
+    simp only [exprCells, List.mem_append] at hpe
+    rcases hpe with hpe | hpe
+    · split at hpe
+      · rename_i hrep
+        simp only [hrep, if_true] at h3
+        obtain ⟨kv, hkv, rfl⟩ := List.mem_map.mp hpe
+        exact attrsErr_none els _ p.attrs h3 kv hkv
+      · simp at hpe
+    · exact textsErrL_exprs els (pre ++ [n]) ks h4 pe hpe
+theorem textsErrL_exprs (els : List Refs.Chain) : ∀ (pre : List Str) (ds : List DItem), textsErrL els pre ds = none →
+    ∀ pe ∈ exprCellsL pre ds, ∃ out, Refs.insertXpaths els (some (ctxOf els pe.1)) {} pe.2 = some out
+  | _, [], _ => by simp [exprCellsL]
+  | pre, k :: ks, h => by
+    obtain ⟨h1, h2⟩ := orErr_none (by simpa [textsErrL] using h)
+    intro pe hpe
+    simp only [exprCellsL, List.mem_append] at hpe
+    rcases hpe with hpe | hpe
+    · exact textsErr_exprs els pre k h1 pe hpe
+    · exact textsErrL_exprs els pre ks h2 pe hpe
+end
+
+/-- **C03 for dynamic defaults and repeat counts** (`_partial`: `GoodNames` as hypotheses, as in `convert_c03_partial`).
+    In a successful conversion every dynamic default (the `value` of its `setvalue`) and every control attribute of a
+    repeat (`jr:count`) was substituted by `Refs.refFor` from the element's own node, and every `${name}` in it,
+    evaluated from that node, reaches the element it names. -/
+theorem convert_c03_exprs_partial (wb : Workbook) (doc : Node) (h : convertDoc wb = .ok doc) :
+    ∃ (els : List Refs.Chain) (root : Str) (ditems : List DItem),
+      (∀ t ∈ els, Refs.GoodNames t.path) → ∀ pe ∈ exprCellsL [root] ditems, Refs.GoodNames (ctxOf els pe.1).path →
+        (∃ out, Refs.insertXpaths els (some (ctxOf els pe.1)) {} pe.2 = some out) ∧ HolesResolve els (ctxOf els pe.1) pe.2 := by
+  obtain ⟨f, lists, rows, drows, o, ditems, T⟩ := convertDoc_trace wb doc h
+  refine ⟨elsOf f.name (dWithMeta f.name rows ditems), f.name, ditems, ?_⟩
+  intro hv pe hpe hc
+  obtain ⟨out, hout⟩ := textsErrL_exprs _ _ _ T.htexts pe hpe
+  exact ⟨⟨out, hout⟩, insertXpaths_holes _ hv _ hc _ out hout⟩
+
+#print axioms convert_c03_exprs_partial
 
 /-! ## 4b. the hypothesis of `convert_c01`, on the sources of the names -/
 
